@@ -59,6 +59,18 @@ PROPS = {
     "C19": dict(suites=[("hist", 100, 4, 400, 16), ("pairs", 1, 4, 2, 16)], corr=["insert", "delete", "constraint"], oracles=["C19", "C08", "C09"]),
 }
 
+FACTS = {"C13": ["builtin_impls", "builtin_checks", "builtin_registrations"], "C11": ["invalid_param_chars"], "C03": ["search_kind_order"],
+         "C15": ["display_kind_order"], "C18": ["interior_mutability"], "C17": ["oci_routes", "oci_name_pattern"], "C07": ["panic_sites"]}
+# which measured count is "distinct and non-trivial" for a property, and why
+NT = {
+    "fit2": "distinct (live set, path) pairs for which at least two live routes fit the path",
+    "mut": "distinct (live set, insert/delete call) pairs",
+    "tree": "distinct live sets with at least three routes whose printed tree was parsed back and checked",
+    "ambiguous": "distinct (single template, path) pairs with at least two possible assignments",
+    "rejected": "distinct rejected template strings", "expectmatch": "distinct endpoint URLs (name x shape x method x slash) whose independent reading expects a match", "groups": "distinct accepted templates with more than one expansion",
+}
+NT_OF = {"C01": "fit2", "C02": "fit2", "C03": "fit2", "C04": "groups", "C05": "mut", "C06": "fit2", "C07": "rejected", "C08": "mut", "C09": "mut",
+         "C10": "mut", "C11": "rejected", "C12": "ambiguous", "C13": "fit2", "C14": "rejected", "C15": "tree", "C16": "mut", "C17": "expectmatch", "C18": "fit2", "C19": "mut"}
 IMPLEMENTED_SUITES = None  # filled from `wfh suites`
 
 
@@ -496,13 +508,14 @@ def main():
         if len(samples) >= 6:
             break
     cov = dict(
-        obligations=max(1, lean["obligations"] + len(lean["generated"])),
-        discharged=lean["discharged"] + sum(1 for v in lean["generated"].values() if v == "ok") if not lean["failures"] else lean["discharged"],
+        obligations=max(1, lean["obligations"]),
+        discharged=lean["discharged"],
         checker_cmd=lean["checker_cmd"], trusted_base=TRUSTED,
-        theorems=theorem_names(pid), proof_failures=lean["failures"], translator_facts=lean["generated"],
-        evaluations=evaluations, distinct_nontrivial=stats.get("distinct_nontrivial", 0),
-        rule="operations executed on the real crate and replayed on the Lean model; distinct_nontrivial = distinct (live set, path) pairs "
-             "for which at least two live routes fit the path (counted by the Lean driver)",
+        theorems=theorem_names(pid), proof_failures=lean["failures"],
+        translator_facts={k: lean["generated"].get(k, "unavailable") for k in FACTS.get(pid, [])},
+        evaluations=evaluations, distinct_nontrivial=stats.get("nt." + NT_OF[pid], 0),
+        rule="operations executed on the real crate and replayed on the Lean model; distinct_nontrivial = " + NT[NT_OF[pid]] +
+             " (counted by the Lean driver per chunk and summed; chunks of an enumeration are disjoint)",
         samples=samples or [dict(note="no operations ran")],
         traces_validated_against_impl=len([r for r in results if "error" not in r]),
         disagreements_checked=len(corr_hits), oracle_failures=len(oracle_hits),
